@@ -22,10 +22,11 @@ type Scenario struct {
 	Bound       int    // deviation bound to complete (0,1,2,…)
 	PreemptCost bool
 	SelectCost  bool
+	Deepen      int // thorough tier: keep raising the bound up to this value while the deepening slice lasts
 	MaxExecs    int // cap on executions (0 = default)
 	MaxSteps    int
-	Race        bool // happens-before race detection on goat's field/map accesses (C15)
-	Once        bool // pure enumeration inside the body: execute exactly once, no schedule search
+	Race        bool                                                         // happens-before race detection on goat's field/map accesses (C15)
+	Once        bool                                                         // pure enumeration inside the body: execute exactly once, no schedule search
 	RawRun      func() (viol []vsched.Violation, obs []string, inputs int64) // runs outside the scheduler (real sockets): input enumeration only
 	Horizon     time.Duration
 	Run         func()
@@ -42,7 +43,7 @@ type Found struct {
 	Trace    []string            `json:"trace,omitempty"`
 	Obs      []string            `json:"obs,omitempty"`
 	Parked   []vsched.ThreadInfo `json:"parked,omitempty"`
-	Wire     []string          `json:"wire,omitempty"`
+	Wire     []string            `json:"wire,omitempty"`
 	Panic    string              `json:"panic,omitempty"`
 	Stack    string              `json:"stack,omitempty"`
 	End      string              `json:"end"`
@@ -50,30 +51,32 @@ type Found struct {
 
 // Report is the outcome of exploring one scenario.
 type Report struct {
-	Scenario    string   `json:"scenario"`
-	Family      string   `json:"family"`
-	Bound       int      `json:"bound"`      // requested
-	BoundDone   int      `json:"bound_done"` // largest bound completed (-1: none)
-	Executions  int      `json:"executions"`
-	Nodes       int      `json:"nodes"` // distinct schedule-tree nodes visited
-	Steps       int      `json:"steps"` // scheduling steps executed
-	MaxPoints   int      `json:"max_points"`
-	Outcomes    int      `json:"outcomes"`   // distinct observation logs
-	Exhaustive  bool     `json:"exhaustive"` // bound completed without hitting a cap
-	Cap         string   `json:"cap,omitempty"`
-	Found       []Found  `json:"found,omitempty"`
-	EngineError string   `json:"engine_error,omitempty"`
-	WallS       float64  `json:"wall_s"`
-	SampleObs   []string `json:"sample_obs,omitempty"`
-	SampleTrace []string `json:"sample_trace,omitempty"`
-	OutcomeList []string `json:"outcome_list,omitempty"`
-	Extra        map[string]int64 `json:"extra,omitempty"`
+	Scenario    string           `json:"scenario"`
+	Family      string           `json:"family"`
+	Bound       int              `json:"bound"`      // requested
+	BoundDone   int              `json:"bound_done"` // largest bound completed (-1: none)
+	Executions  int              `json:"executions"`
+	Nodes       int              `json:"nodes"` // distinct schedule-tree nodes visited
+	Steps       int              `json:"steps"` // scheduling steps executed
+	MaxPoints   int              `json:"max_points"`
+	Outcomes    int              `json:"outcomes"`   // distinct observation logs
+	Exhaustive  bool             `json:"exhaustive"` // bound completed without hitting a cap
+	Cap         string           `json:"cap,omitempty"`
+	Deepened    string           `json:"deepened,omitempty"`
+	Found       []Found          `json:"found,omitempty"`
+	EngineError string           `json:"engine_error,omitempty"`
+	WallS       float64          `json:"wall_s"`
+	SampleObs   []string         `json:"sample_obs,omitempty"`
+	SampleTrace []string         `json:"sample_trace,omitempty"`
+	OutcomeList []string         `json:"outcome_list,omitempty"`
+	Extra       map[string]int64 `json:"extra,omitempty"`
 }
 
 type Options struct {
-	Deadline   time.Time // stop (exhaustive=false) when passed
-	MaxFound   int       // stop after this many distinct violation keys
-	KeepSample bool
+	Deadline    time.Time // stop (exhaustive=false) when passed
+	MaxFound    int       // stop after this many distinct violation keys
+	KeepSample  bool
+	DeepenSlice time.Duration
 }
 
 type explorer struct {
@@ -161,8 +164,40 @@ func Explore(t *testing.T, sc *Scenario, opt Options) *Report {
 			break // minimal-deviation counterexamples found; deeper bounds add nothing
 		}
 	}
+	// optional deepening beyond the required bound, within a time slice: a bound
+	// that does not complete in the slice is abandoned and does not count
+	if sc.Deepen > sc.Bound && rep.BoundDone == sc.Bound && rep.Cap == "" && len(rep.Found) == 0 && opt.DeepenSlice > 0 {
+		saved := x.opt.Deadline
+		slice := time.Now().Add(opt.DeepenSlice)
+		if !saved.IsZero() && saved.Before(slice) {
+			slice = saved
+		}
+		x.opt.Deadline = slice
+		for b := sc.Bound + 1; b <= sc.Deepen; b++ {
+			x.bound = b
+			nodes := x.rep.Nodes
+			x.rep.Nodes = 0
+			x.dfs(nil, 0)
+			if x.stop && len(rep.Found) == 0 {
+				// ran out of slice: forget the partial bound
+				x.stop = false
+				rep.Cap = ""
+				rep.Deepened = fmt.Sprintf("deviation bound %d completed; bound %d abandoned after the %v deepening slice", rep.BoundDone, b, opt.DeepenSlice)
+				x.rep.Nodes = nodes
+				break
+			}
+			if x.stop {
+				break
+			}
+			rep.BoundDone = b
+			if len(rep.Found) > 0 {
+				break
+			}
+		}
+		x.opt.Deadline = saved
+	}
 	rep.Outcomes = len(x.outcomes)
-	rep.Exhaustive = rep.BoundDone == sc.Bound && rep.Cap == ""
+	rep.Exhaustive = rep.BoundDone >= sc.Bound && rep.Cap == ""
 	rep.WallS = time.Since(start).Seconds()
 	return rep
 }
